@@ -37,7 +37,7 @@ ASSUMPTIONS = [
   'a raw array directly inside a list/tuple/dict/namedtuple/OrderedDict/struct container is an immutable leaf for flax (update raises ValueError by design): no update is generated on a graph that has one',
   'there is no scheduler or I/O behind this property; the simulator contributes long aliasing/edit histories against a model, gc instants and identity checks',
 ]
-PROBES = ['shared_variable', 'shared_or_cyclic_node', 'self_reference', 'pytree_container', 'long_list_container', 'generic_pytree_container', 'generic_rotated_field_order', 'cycle_in_graph', 'split_nonexhaustive_raises', 'merge_shuffled', 'update_foreign', 'pop_done', 'graphdef_differs_after_edit', 'gc_event', 'metadata_edited_in_place', 'snapshot_restored', 'container_root', 'state_routes_checked', 'failed_call_then_continue']
+PROBES = ['pop_shared_variable', 'shared_variable', 'shared_or_cyclic_node', 'self_reference', 'pytree_container', 'long_list_container', 'generic_pytree_container', 'generic_rotated_field_order', 'cycle_in_graph', 'split_nonexhaustive_raises', 'merge_shuffled', 'update_foreign', 'pop_done', 'graphdef_differs_after_edit', 'gc_event', 'metadata_edited_in_place', 'snapshot_restored', 'container_root', 'state_routes_checked', 'failed_call_then_continue']
 
 
 def setup_worker(w, tier):
@@ -390,25 +390,45 @@ def execute(plan):
           for p, l in W.model_leaves(m):
             if not isinstance(l, W.MVar) and any(W.filter_model(f, p, l) for f in fs):
               ok = False  # raw arrays are node leaves too; popping them is not part of the claim
+          groups = {}
           for p, l, parent in occ:
             hit = next((i for i, f in enumerate(fs) if W.filter_model(f, p, l)), None)
-            if hit is None:
+            groups.setdefault(l.id, []).append((hit, p, l, parent))
+          for lid, g_ in groups.items():
+            hits = {h_ for h_, _, _, _ in g_}
+            if hits == {None}:
               continue
-            if parent.kind != 'module' or nocc[l.id] > 1:
-              ok = False  # shared Variable or Variable inside a plain container: not pinned down by the property
+            if any(parent.kind != 'module' for _, _, _, parent in g_):
+              ok = False  # Variable inside a plain container: pop refuses those, not pinned down by the property
               break
-            sel.append((hit, p, l, parent))
+            if len(g_) > 1 and (None in hits or len(hits) > 1):
+              ok = False  # a shared Variable that path-dependent filters select under some of its paths only: not pinned down
+              break
+            sel.extend(g_)
           if not ok:
             continue
           out = nnx.pop(r, *[W.filter_real(f) for f in fs])
           states = [out] if len(fs) == 1 else list(out)
+          shared_popped = False
           for i, st in enumerate(states):
             got = sorted(((p, W.leaf_rec_real(v)) for p, v in W.flat_real_state(st)), key=lambda x: repr(x[0]))
-            want = sorted(((p, W.leaf_rec_model(l)) for hit, p, l, _ in sel if hit == i), key=lambda x: repr(x[0]))
-            if got != want:
-              raise Violation('pop-wrong', f'{where}: pop returned {[p for p, _ in got]} for filter #{i}, expected {[p for p, _ in want]}')
+            # a Variable reachable under several paths is listed once, under one of them; the others exactly where they sit
+            want_exact = sorted(((p, W.leaf_rec_model(l)) for hit, p, l, _ in sel if hit == i and len(groups[l.id]) == 1), key=lambda x: repr(x[0]))
+            want_any = [({p for _, p, _, _ in groups[lid]}, W.leaf_rec_model(groups[lid][0][2])) for lid in sorted({l.id for hit, _, l, _ in sel if hit == i and len(groups[l.id]) > 1})]
+            rest = [x for x in got if x not in want_exact]
+            matched = 0
+            for paths, rec in want_any:
+              m_ = [x for x in rest if x[0] in paths and x[1] == rec]
+              if len(m_) == 1:
+                matched += 1
+                rest.remove(m_[0])
+            if [x for x in got if x in want_exact] != want_exact or matched != len(want_any) or rest:
+              raise Violation('pop-wrong', f'{where}: pop returned {[p for p, _ in got]} for filter #{i}, expected {[p for p, _ in want_exact]} plus one path each of {[sorted(ps) for ps, _ in want_any]}')
+            shared_popped = shared_popped or bool(want_any)
           for hit, p, l, parent in sel:
             del parent.attrs[p[-1]]
+          if shared_popped:
+            res.probe('pop_shared_variable')
           if sel:
             res.probe('pop_done')
           log.add(oi, k, len(sel))
